@@ -36,6 +36,12 @@ impl PartialProjection {
         &self.project_to
     }
 
+    /// Verification hook: the current contents of the projection scratch buffer.
+    #[cfg(feature = "verif")]
+    pub fn verif_to_buf(&self) -> Vec<usize> {
+        self.to_buf.to_vec()
+    }
+
     pub fn project_unchecked<'a>(
         &'a mut self,
         project_from: &'a Count,
